@@ -114,6 +114,10 @@ func verifRecLabel(rec logstorage.Record, name string) string {
 	return v.AsString()
 }
 
+// verifC01MaxBody bounds the symbolic body length (the matcher-only variants
+// do not look at the body).
+var verifC01MaxBody = 2
+
 func verifC01Select(N, M, S int) {
 	ops := []logql.BinOp{logql.OpEq, logql.OpNotEq, logql.OpRe, logql.OpNotRe}
 	// query
@@ -160,7 +164,7 @@ func verifC01Select(N, M, S int) {
 		// quoting is judged by C08, not here
 		vsymAssume(valA[j][0] >= 'a')
 		vsymAssume(valA[j][0] <= 'z')
-		bodies[j] = vsymString("body", vsymChoice("bodylen", 3))
+		bodies[j] = vsymString("body", vsymChoice("bodylen", verifC01MaxBody+1))
 		attrs := map[string]string{"z": "z"}
 		if hasA[j] {
 			attrs["a"] = valA[j]
@@ -238,3 +242,6 @@ func VerifHarness_C01_Select_2_1_1() { verifC01Select(2, 1, 1) }
 func VerifHarness_C01_Select_1_2_2() { verifC01Select(1, 2, 2) }
 
 var _ iterators.Iterator[logstorage.Record] = (*verifCountingIter)(nil)
+
+// two matchers on the same label, empty bodies (matchers do not look at them)
+func VerifHarness_C01_Select_1_2_0_NoBody() { verifC01MaxBody = 0; verifC01Select(1, 2, 0) }
